@@ -7,4 +7,6 @@ CONSTANTS
   MaxCore = 8
   MaxP2J = 3
   MaxDim4 = 2
+  MaxRank4 = 2
+  MaxBadSize = 8
 INVARIANT SpecOK
